@@ -17,10 +17,12 @@ SCHEMAS = ["prim_int", "prim_long", "prim_string", "prim_bytes", "prim_double", 
            "enum", "fixed", "rec_flat", "rec_floats", "rec_empty", "rec_defaults", "rec_defaults2", "union_prims", "union_named_mix",
            "union_two_recs", "union_arr_map", "pair_array_int", "pair_map_long", "pair_array_record", "pair_map_union",
            "pair_field_union", "pair_union_record", "chain_arr_union_map", "chain_rec_union_rec_arr", "ref_after_def",
-           "ns_inherit", "ns_dotted", "ns_switch", "ns_null", "err_type", "rec_dictnull", "map_key_is_field"]
+           "ns_inherit", "ns_dotted", "ns_switch", "ns_null", "err_type", "rec_dictnull", "map_key_is_field", "logical_noscale",
+           "rec_two_children", "err_nested"]
 QUICK = ["prim_long", "prim_bytes", "enum", "fixed", "rec_flat", "rec_defaults", "union_prims", "union_named_mix",
          "pair_array_int", "pair_map_union", "pair_field_union", "ref_after_def", "ns_inherit", "chain_rec_union_rec_arr",
-         "rec_empty", "ns_null"]
+         "rec_empty", "ns_null", "logical_noscale"]
+LOGICAL = {"logical_noscale"}
 CUT = 2  # gen_data builds arrays/maps with `for _ in range(10)`; the harness cuts those loops to CUT iterations
 
 
@@ -115,6 +117,8 @@ def ob_generate(c, n, xs, parsed=False, container=False):
             back = R.schemaless_reader(fo, c["parsed"])
         except Exception as e:
             return False, f"generated value {v!r}: {type(e).__name__}: {e}"
+        if c["name"] in LOGICAL:
+            continue  # read-back converts to decimal/datetime objects: the representation is C16's subject
         try:
             want = codec.normalise(c["ir"], v, c["names"], rt.f32)
         except codec.Silent:
@@ -135,10 +139,57 @@ def ob_generate(c, n, xs, parsed=False, container=False):
             want = [codec.normalise(c["ir"], v, c["names"], rt.f32) for v in vals]
         except codec.Silent:
             want = None
-        if want is not None and not _same(back, want):
+        if want is not None and c["name"] not in LOGICAL and not _same(back, want):
             return False, f"container file of generated values {vals!r} reads back as {back!r}"
     if _freeze_native(sch) != sch_before:
         return False, f"generate_many modified the schema object it was given ({'parsed' if parsed else 'raw'} form)"
+    return True, ""
+
+
+TWIN_A = {"type": "record", "name": "weather.Reading", "fields": [
+    {"name": "unit", "type": {"type": "enum", "name": "weather.Unit", "symbols": ["C", "F"]}},
+    {"name": "v", "type": "int"}, {"name": "again", "type": "weather.Unit"}]}
+TWIN_B = {"type": "record", "name": "weather.Reading", "fields": [
+    {"name": "station", "type": "string"},
+    {"name": "unit", "type": {"type": "enum", "name": "weather.Unit", "symbols": ["K", "R", "X"]}},
+    {"name": "again", "type": "weather.Unit"}, {"name": "hist", "type": {"type": "array", "items": "weather.Unit"}}]}
+
+
+def ob_interleaved(xs, n):
+    """generate_many is lazy: two generators for two schemas that define the same type names differently are alive at
+    once and are consumed alternately; every value must conform to the schema of its own generator"""
+    if not (1 <= n <= CUT):
+        return True, "out of domain"
+    d = Draws(xs)
+    saved = (U.random, U.__dict__.get("range"), U.uuid)
+    U.random = d
+    U.range = lambda k: builtins.range(min(k, CUT))
+    U.uuid = _UUID
+    out = []
+    try:
+        try:
+            ga, gb = U.generate_many(TWIN_A, n), U.generate_many(TWIN_B, n)
+            for _ in range(n):
+                out.append(("A", next(ga)))
+                out.append(("B", next(gb)))
+        except Exception as e:
+            return False, f"interleaved generators raised {type(e).__name__}: {e}"
+    finally:
+        U.random, U.uuid = saved[0], saved[2]
+        if saved[1] is None:
+            del U.range
+        else:
+            U.range = saved[1]
+    if d.exhausted:
+        return True, "out of domain"
+    for who, v in out:
+        sch = TWIN_A if who == "A" else TWIN_B
+        try:
+            ok = V.validate(v, sch, raise_errors=False)
+        except Exception as e:
+            return False, f"value {v!r} of generator {who}: validate raised {type(e).__name__}: {e}"
+        if not ok:
+            return False, f"value {v!r} produced by the generator for schema {who} does not conform to that schema (values so far {out!r})"
     return True, ""
 
 
@@ -194,4 +245,10 @@ def harnesses(tier, seed):
         hs.append(Harness(f"generate_container.{name}", "props.l20", f"xs: {tc}, parsed: bool", call + "[0]", replay_call=call, setup=setup,
                           what=f"container round trip of generated values on {name}",
                           samples=[(s1[:nc], False), (s2[:nc], True)], key=f"generate:{name}"))
+    nd = 6
+    tp = "Tuple[" + ", ".join(["int"] * nd) + "]"
+    call = "ob_interleaved(tuple(xs) + (1, 0, 2, 1, 0, 2, 1, 0, 2, 1, 0, 2, 1, 0, 2, 1, 0, 2, 1, 0), n)"
+    hs.append(Harness("generate_many.interleaved_generators", "props.l20", f"xs: {tp}, n: int", call + "[0]", replay_call=call,
+                      what="two lazy generators consumed alternately", samples=[(tuple(range(nd)), 2), (tuple(range(5, 5 + nd)), 1)],
+                      key="generate:interleaved"))
     return hs
